@@ -31,6 +31,7 @@ pub mod c04_writer;
 pub mod c05_frag;
 pub mod c06_hostile;
 pub mod c07_live;
+pub mod c08_nokey;
 pub mod c08_readtake;
 pub mod c09_badchange;
 pub mod c10_qos;
